@@ -106,10 +106,9 @@ func resolvePathCompositeFieldReference(scope *Scope, reference pgsql.RowColumnR
 		return nil, false, nil
 	}
 
+	// identifier is a translator generated identifier, never a user symbol: it must not be resolved
+	// through the alias table, where a user alias spelled like it (`WITH p AS i0`) would capture it
 	binding, bound := scope.Lookup(identifier)
-	if !bound {
-		binding, bound = scope.AliasedLookup(identifier)
-	}
 	if !bound || binding.DataType != pgsql.PathComposite {
 		return nil, false, nil
 	}
@@ -214,18 +213,8 @@ func resolvePathCompositeFieldReferences(scope *Scope, expression pgsql.Expressi
 		return nil, nil
 
 	case pgsql.Identifier:
-		if binding, bound := scope.Lookup(typedExpression); !bound {
-			if aliasedBinding, aliasBound := scope.AliasedLookup(typedExpression); aliasBound {
-				binding = aliasedBinding
-				bound = true
-			}
-
-			if !bound || binding.DataType != pgsql.PathComposite {
-				return expression, nil
-			}
-
-			return expressionForPathComposite(binding, scope)
-		} else if binding.DataType == pgsql.PathComposite {
+		// As above: generated identifiers are resolved by definition only
+		if binding, bound := scope.Lookup(typedExpression); bound && binding.DataType == pgsql.PathComposite {
 			return expressionForPathComposite(binding, scope)
 		}
 
